@@ -19,6 +19,10 @@ Bodies(f) ==
     [] f = "arith" -> << AnyE(<<SeqE("of", <<Ref(1), PLUS, Ref(2)>>), Ref(2)>>),       \* E -> E + T | T
                          AnyE(<<SeqE("of", <<Ref(2), STAR, Ref(3)>>), Ref(3)>>),       \* T -> T * F | F
                          AnyE(<<SeqE("of", <<LP, Ref(1), RP>>), DIG>>) >>               \* F -> ( E ) | d
+    [] f = "arithnest" -> << AnyE(<<SeqE("of", <<Ref(1), PLUS, Ref(2)>>), Ref(2)>>),
+                             AnyE(<<SeqE("of", <<Ref(2), STAR, Ref(3)>>), Ref(3)>>),
+                             AnyE(<<SeqE("of", <<LP, Ref(1), RP>>), DIG>>) >>               \* same grammar, nested parentheses
+    [] f = "lr2" -> <<AnyE(<<SeqE("of", <<Ref(1), Bt>>), SeqE("of", <<Ref(1), Ct>>), A>>)>>   \* P -> P b | P c | a
     [] f = "mutual" -> << AnyE(<<SeqE("of", <<Ref(2), X>>), A>>),                      \* P -> Q x | a
                           AnyE(<<SeqE("of", <<Ref(1), Y>>), Bt>>) >>                    \* Q -> P y | b
     [] f = "hidden" -> <<AnyE(<<SeqE("of", <<Opt(X), Ref(1), Bt>>), A>>)>>             \* P -> x? P b | a
@@ -30,6 +34,8 @@ Rep(n, f(_)) == [i \in 1..n |-> f(i)]
 InputOf(f, n) ==
   CASE f = "lr" -> [i \in 1..n |-> IF i = 1 THEN 97 ELSE 98]
     [] f = "arith" -> [i \in 1..(IF n % 2 = 0 THEN n + 1 ELSE n) |-> IF i % 2 = 1 THEN 100 ELSE IF i % 4 = 2 THEN 43 ELSE 42]   \* d+d*d+d*d...
+    [] f = "arithnest" -> LET k == n \div 2 IN [i \in 1..(2 * k + 1) |-> IF i <= k THEN 40 ELSE IF i = k + 1 THEN 100 ELSE 41]   \* ((((d))))
+    [] f = "lr2" -> [i \in 1..n |-> IF i = 1 THEN 97 ELSE IF i % 2 = 0 THEN 98 ELSE 99]                                        \* a b c b c ...
     [] f = "mutual" -> [i \in 1..n |-> IF i = 1 THEN 97 ELSE IF i % 2 = 0 THEN 121 ELSE 120]     \* a y x y x ...  (P=a, Q=P y, P=Q x, ...)
     [] f = "hidden" -> [i \in 1..n |-> IF i = 1 THEN 97 ELSE 98]
     [] f = "brackets" -> LET k == n \div 2 IN [i \in 1..(2 * k + 1) |-> IF i <= k THEN 40 ELSE IF i = k + 1 THEN 97 ELSE 41]
